@@ -154,8 +154,18 @@ def run(ctx):
                 tgt = n
             if tgt is not None:
                 q = mod.enclosing_qual(n)
+                # Scheduler.clear() runs once before an execution starts (first statement group of _run): resetting every counter to the constant 0
+                # there is the initial state of the accounting, not a release
+                reset = mod.rel == SCHED and q == "Scheduler.clear" and isinstance(n, ast.Assign) and isinstance(n.value, ast.Constant) and n.value.value == 0
+                if reset:
+                    runf = m.func("Scheduler._run")
+                    clear_calls = [c for c in calls_in(runf, shallow=True) if call_name(c) == "self.clear"]
+                    evals = [c for c in calls_in(runf, shallow=True) if call_name(c) in ("self.evaluate", "self._process_events")]
+                    reset = bool(clear_calls) and bool(evals) and all(c.lineno < min(e.lineno for e in evals) for c in clear_calls) and all(
+                        call_name(c) != "self.clear" for q2, f2 in m.funcs.items() if q2.startswith("Scheduler.") and q2 not in ("Scheduler._run",) for c in calls_in(f2, shallow=True)
+                    )
                 r3.check(
-                    mod.rel == SCHED and q in allowed_writers,
+                    (mod.rel == SCHED and q in allowed_writers) or reset,
                     f"{mod.rel}:{q}:write limits_used",
                     f"limits_used is written outside _consume_resources/_release_resources: {src(n)[:80]}",
                     mod.rel,
